@@ -310,7 +310,9 @@ impl Check for C13 {
                     if x == y || r0.conflict_paths.contains(p) || r1.conflict_paths.contains(p) {
                         continue;
                     }
-                    if !(matches!(r0.exit, ExitKind::Code(0)) && matches!(r1.exit, ExitKind::Code(0))) {
+                    // (whatever the exit status: a run that exits non-zero because the hub changed
+                    // underneath it must not have overwritten what the other client committed)
+                    if !(matches!(r0.exit, ExitKind::Code(_)) && matches!(r1.exit, ExitKind::Code(_))) {
                         continue;
                     }
                     let full = format!("{ROOT}/{p}");
